@@ -249,7 +249,7 @@ def gen_ops(seed_parts, world, profile, max_steps):
             ops.insert(rng.randrange(len(ops) + 1), src)
     ops = ops[:max_steps]
     n_datasets = 1
-    enabled = profile.get("faults", ["transient_read", "rebuild", "rng", "tz", "clock"])
+    enabled = profile.get("faults", ["transient_read", "rebuild", "rng", "tz", "clock", "replace_file"])
     # swarm: each run enables its own subset of fault kinds
     enabled = [k for k in enabled if frng.random() < profile.get("p_fault_kind", 0.35)]
     extra = []
@@ -267,6 +267,9 @@ def gen_ops(seed_parts, world, profile, max_steps):
             pos = frng.randrange(len(ops))
             extra.append((pos, {"op": "arm", "file": party["name"], "var": frng.choice(vs), "nth": frng.randint(1, 3),
                                 "kind": frng.choice(["hdf", "eio"])}))
+    if "replace_file" in enabled and ops:
+        party = frng.choice(W.parties(world))
+        extra.append((frng.randrange(len(ops)), {"op": "replace_file", "file": party["name"], "delta": frng.choice([333.0, 77.0])}))
     if "rng" in enabled:
         for _ in range(frng.randint(1, 2)):
             extra.append((frng.randrange(len(ops) + 1), {"op": "rng", "seed": frng.randrange(2 ** 31),
